@@ -11,3 +11,11 @@ func VxArbPath(tag string) *Path {
 	p.words = [4]uint64(w)
 	return &p
 }
+
+// VxPathFromW: the path of the given length whose bits are the low `length` bits of w.
+func VxPathFromW(length uint8, w vx.W256) *Path {
+	var p Path
+	p.len = length
+	p.words = [4]uint64(w)
+	return &p
+}
